@@ -819,6 +819,27 @@ class Exec:
                 l[idx[0]] = v if len(idx) == 1 else ins(l[idx[0]], idx[1:]); return ('agg', l)
             L[d] = ins(a, x['idx'])
         elif op == 'freeze': L[d] = s.val(st, x['a'])
+        elif op == 'fence': pass
+        elif op == 'atomicrmw':
+            # single-threaded semantics (threads are not modelled): read-modify-write, result is the old value
+            ptr = s.val(st, x['a']); v = s.val(st, x['v']); t = x['v'].ty
+            old = s.load_val(st, ptr, t); rop = x['rop']
+            if rop == 'xchg': new = v
+            elif rop in ('add', 'sub', 'and', 'or', 'xor'): new = s.binop(st, rop, t, old, v)
+            elif rop in ('max', 'min', 'umax', 'umin'):
+                c = s.icmp(st, {'max': 'sgt', 'min': 'slt', 'umax': 'ugt', 'umin': 'ult'}[rop], t, old, v)
+                new = s.ite(c, old, v, t) if not isinstance(c, bool) else (old if c else v)
+            else: raise Violation('unsupported', 'atomicrmw ' + rop, st)
+            s.store_val(st, ptr, t, new); L[d] = old
+        elif op == 'cmpxchg':
+            ptr = s.val(st, x['a']); cmpv = s.val(st, x['c']); newv = s.val(st, x['n']); t = x['c'].ty
+            old = s.load_val(st, ptr, t)
+            eq = s.icmp(st, 'eq', t, old, cmpv)
+            if isinstance(eq, bool):
+                if eq: s.store_val(st, ptr, t, newv)
+                L[d] = ('agg', [old, eq])
+            else:
+                s.store_val(st, ptr, t, s.ite(eq, newv, old, t)); L[d] = ('agg', [old, eq])
         elif op == 'landingpad':
             sel = 0
             for kind, tv in x['clauses']:
